@@ -22,6 +22,7 @@ import Cog.Drv.TotalDrv
 import Cog.Drv.SrcDenDrv
 import Cog.Drv.FrontDrv
 import Cog.Drv.FrontOaDrv
+import Cog.Drv.FrontCueDrv
 import Cog.Drv.KeepsDrv
 import Cog.Drv.FrontEmitDrv
 import Cog.Drv.PyDeclDrv
@@ -82,6 +83,8 @@ def handleIO (line : String) : IO String := do
   | "oafdef" :: rest => oafdefLine (" ".intercalate rest)
   | "oafront" :: rest => oafrontLine (" ".intercalate rest)
   | "oafdoc" :: rest => oafdocLine (" ".intercalate rest)
+  | "cuefdef" :: rest => cuefdefLine (" ".intercalate rest)
+  | "cuefront" :: rest => cuefrontLine (" ".intercalate rest)
   | "jsfkeeps" :: rest => jsfkeepsLine (" ".intercalate rest)
   | "jsfc08" :: rest => jsfc08Line (" ".intercalate rest)
   | "jsfc12" :: rest => jsfc12Line (" ".intercalate rest)
